@@ -316,6 +316,13 @@ def ra_docs(tier, rng):
             docs.append(C.document([C.table(prefixes=[P("2001:db8:%x::/64" % i) for i in range(n)] + [P("2001:db8::/56")],
                                             routes=[R("2001:db8:%x::/48" % (0xf0 + i)) for i in range(n)] + [R()],
                                             rdnss_=[D(["::"] + srv[:n]), D(srv[:n])])]))
+    # PREF64 lifetime = 3 x MaxRtrAdvInterval rounded UP to a multiple of 8 s: intervals whose triple lies just above,
+    # exactly on and just below a multiple of 8 s, whole and fractional, up to the 65528 s cap
+    for ms in ([4000, 5333, 5334, 5500, 7999, 8000, 8001, 8100, 10666, 10667, 10668, 13334, 600000, 600250, 600333, 1800000, 1799999] +
+               [rng.randrange(4000, 1800001) for _ in range(40 if thorough else 12)] +
+               [8000 * k // 3 + d for k in (2, 3, 5, 100, 675) for d in (-1, 0, 1, 2, 333, 334)]):
+        if 4000 <= ms <= 1800000:
+            docs.append(C.document([C.table(max=K("val", ms), min=K("val", 3000), pref64_=[X()])]))
     for j in range(4000 if thorough else 500):
         kw = dict(rng.choice(hdrs))
         for k in keys:
